@@ -48,6 +48,9 @@ class Run:
 
     def add_sim(self, sim):
         self.sims.append(sim)
+        sim.run = self
+        if sim.cfg.dup_p > 0 or sim.cfg.crash_p > 0:
+            self.probe_run = True  # state-perturbing probes are outside what the properties quantify over
         return sim
 
     def digest(self, *objs):
@@ -181,7 +184,7 @@ def shrink(mod, values, target_key, budget_runs=250, budget_s=150):
         nonlocal runs
         runs += 1
         o = execute(mod, Choices(recorded=cand))
-        if o["error"]:
+        if o["error"] or o.get("probe_run"):
             return False
         return any(_vkey(v) == target_key for v in o["violations"])
 
@@ -304,10 +307,12 @@ def run_batch(prop: str, tier: str, seed: int, nproc: int | None = None) -> int:
     # ---- violations -----------------------------------------------------------
     groups: dict = {}
     probe_violations = 0
+    probe_groups: Counter = Counter()
     for o in outs:
         for v in o["violations"]:
             if o.get("probe_run"):
                 probe_violations += 1
+                probe_groups[_vkey(v)] += 1
                 continue
             groups.setdefault(_vkey(v), (o, v))
     findings = known_findings()
@@ -387,6 +392,8 @@ def run_batch(prop: str, tier: str, seed: int, nproc: int | None = None) -> int:
     with open(os.path.join(VERIF, "evidence", f"{prop}.json"), "w") as f:
         json.dump(ev, f, indent=1, default=str)
 
+    for (clause, sigj), n in sorted(probe_groups.items())[:12]:
+        print(f"PROBE property={prop} clause={clause} n={n} signature={sigj[:300]}")
     for l in known_lines:
         print(l)
     for l in violation_lines:
